@@ -37,13 +37,13 @@ Print Assumptions C04_nothing_afterwards.
 
 Definition ex_drop : list label :=
   [StartColl {| ci_id := 101; ci_name := "c1"; ci_tid := 9101; ci_src := [("s_v0", "s0"); ("s_v1", "s1")]; ci_tgt := [("t_v0", "t0"); ("t_v1", "t1")];
-                ci_parts := [("_default", 7%Z)]; ci_dropped := false |};
+                ci_parts := [("_default", 7%Z)]; ci_dropped := false; ci_seek := [] |};
    Feed 101 "c1" "s0" {| p_begin := 10; p_end := 20; p_starts := [10];
                          p_msgs := [{| m_kind := KDropColl; m_id := 5; m_coll := 101; m_part := 0; m_pname := ""; m_ts := 15; m_rows := O; m_pospch := true |}] |} [];
    Feed 101 "c1" "s1" {| p_begin := 10; p_end := 20; p_starts := [10];
                          p_msgs := [{| m_kind := KDropColl; m_id := 5; m_coll := 101; m_part := 0; m_pname := ""; m_ts := 15; m_rows := O; m_pospch := true |}] |} [];
    StartColl {| ci_id := 101; ci_name := "c1"; ci_tid := 9101; ci_src := [("s_v0", "s0"); ("s_v1", "s1")]; ci_tgt := [("t_v0", "t0"); ("t_v1", "t1")];
-                ci_parts := [("_default", 7%Z)]; ci_dropped := false |}].
+                ci_parts := [("_default", 7%Z)]; ci_dropped := false; ci_seek := [] |}].
 
 Example C04_nonvacuous :
   events (run 3 (firstn 2 ex_drop)) = [] /\ events (run 3 ex_drop) = [EvDropColl 101 15] /\ cnt 101 (run 3 ex_drop) = 1%nat
